@@ -56,11 +56,23 @@ def run_virtual(policy, cfg, max_steps=20000):
     vsched.S = s
     out = {"got": []}
     mp = M.Multiprocessor(F(cfg["Faults"]), cfg["P"], cfg["Max"])
+    # private attributes are observed when they exist; -1 = not observable (the trace specification then skips that field).
+    # Before the call has set them up the spec's initial values are logged (the attributes appear during filter()).
+    started = {"v": False}
+    def NP():
+        if hasattr(mp, "_n_procs"): started["v"] = True; return mp._n_procs
+        return -1 if started["v"] else cfg["P"]
+    def NEX():
+        if hasattr(mp, "_exceptions"): return len(mp._exceptions)
+        return -1 if started["v"] else 0
+    def ST():
+        ls = getattr(mp, "_load_stopper", None)
+        if ls is not None and hasattr(ls, "_stop"): return 1 if ls._stop else 0
+        return -1 if started["v"] else 0
     def snap():
         qs = ctx.queues
         return dict(ninq=len(qs[0].items) if qs else 0, nout=len(qs[1].items) if len(qs) > 1 else 0,
-                    np=getattr(mp, "_n_procs", cfg["P"]), nex=len(getattr(mp, "_exceptions", [])),
-                    st=bool(getattr(getattr(mp, "_load_stopper", None), "_stop", False)))
+                    np=NP(), nex=NEX(), st=ST())
     raw = s.events
     class Ev(list):
         def append(self, e):
